@@ -72,6 +72,26 @@ def enumerate_bindings(tier, seed):
         if b.routing_key != want:
             fails.append('routing key for indexes %s: %r, expected %r' % (rk, b.routing_key, want))
 
+    # composite keys with components of every length around the 16-bit boundaries of the [unsigned short] length prefix (blob partition-key columns)
+    from cassandra.query import PreparedStatement, SimpleStatement
+    from cassandra.protocol import ColumnMetadata
+    from cassandra.cqltypes import BytesType
+    for la, lb in itertools.product([0, 1, 255, 256, 32767, 32768, 65535], repeat=2):
+        n += 1
+        ca, cb = bytes([7]) * la, bytes([9]) * lb
+        want = struct.pack('>H', lb) + cb + b'\x00' + struct.pack('>H', la) + ca + b'\x00'
+        prep = PreparedStatement([ColumnMetadata('ks', 'tb', 'a', BytesType), ColumnMetadata('ks', 'tb', 'b', BytesType)], b'id', [1, 0], 'q', 'ks', 4, None, None)
+        try:
+            got = BoundStatement(prep).bind([ca, cb]).routing_key
+            s2 = SimpleStatement('q')
+            s2.routing_key = [cb, ca]
+            got2 = s2.routing_key
+        except Exception as e:
+            got = got2 = e
+        if got != want or got2 != want:
+            fails.append('composite routing key with components of %d and %d bytes: %r' % (lb, la, got if isinstance(got, Exception) else 'wrong bytes'))
+            break
+
     class N(object):
         def __init__(self, name):
             self.name, self.keyspace_name, self.table_name = name, 'ks', 'tb'
